@@ -38,6 +38,13 @@ Print Assumptions C07_check_registry_iff.
 Theorem C07_loop_funcs_tied : loop_func_names = Generated.Tables.html_loop_funcs.
 Proof. exact loop_func_names_table. Qed.
 
+(* Registry.Add's expression for the Optional flag of a folded header param, regenerated from
+   registry.go on every run, is the ? marker alone (a default value does not make a param optional:
+   the renderer never applies defaults) *)
+Theorem C07_header_param_optional : forall opt has_default has_type,
+  Generated.Tables.header_param_optional opt has_default has_type = opt.
+Proof. exact header_param_optional_spec. Qed.
+
 (* ------------------------------------------------------------------ *)
 (* 2. static scoping is sound for the scope stack *)
 
